@@ -165,6 +165,9 @@ def check_spec(spec, ctx):
             ctx.check(n in hits, "C02.strtree",
                       lambda: f"cell {n} is not among the spatial-index hits {hits} of its own geometry")
 
+    # history: the dataset edited in place between two selections (see C05)
+    from vf.props.c05 import _check_edited_in_place
+    _check_edited_in_place(ctx, spec, ds, enums, clause="C02.select_index_after_in_place_edit")
     face = shapes["face"]
     non_square = len(face) == 1 or face[0] != face[1]
     ctx.label("conv:" + spec["conv"])
